@@ -1,6 +1,7 @@
 """Hypothesis strategies built from the version tables: delimiter sets, canonical leaf text per
 datatype, field / component shapes, segment lines.  Everything is constructed (no filtering)."""
 import string
+import functools
 
 from hypothesis import strategies as st
 
@@ -33,6 +34,23 @@ def delimiter_sets(draw, v, message_level=False, default_weight=3):
     return R.ec_dict(chars[0], chars[1], chars[2], chars[3], chars[4], trunc)
 
 
+def eckey(ec):
+    return tuple(sorted((k, v) for k, v in ec.items() if k not in ('SEGMENT', 'GROUP')))
+
+
+@functools.lru_cache(None)
+def _text(alpha, lo, hi):
+    return st.text(alphabet=st.sampled_from(alpha), min_size=lo, max_size=hi)
+
+
+@functools.lru_cache(None)
+def _sampled(items):
+    return st.sampled_from(items)
+
+
+_INT = functools.lru_cache(None)(st.integers)
+
+
 def active_chars(ec):
     return set(ec[k] for k in ('FIELD', 'COMPONENT', 'SUBCOMPONENT', 'REPETITION', 'ESCAPE', 'TRUNCATION') if k in ec)
 
@@ -48,6 +66,19 @@ def escape_sequences(ec, v):
     return [esc + l + esc for l in letters]
 
 
+def vkey27(v):
+    return T.vkey(v) >= [2, 7]
+
+
+@functools.lru_cache(None)
+def _alphabets(key, new):
+    ec = dict(key)
+    alpha = tuple(plain_alphabet(ec))
+    esc = ec['ESCAPE']
+    escs = tuple(esc + l + esc for l in ('HNFSTRE' + ('L' if new else '')))
+    return alpha, alpha + (' ',), escs
+
+
 def _strip_edges(s, fallback='A'):
     s = s.strip(' ')
     return s if s else fallback
@@ -57,18 +88,17 @@ def _strip_edges(s, fallback='A'):
 def textual_leaf(draw, v, ec, max_parts=3):
     """non-empty text without edge blanks, made of ordinary characters (incl. interior blanks, non-ASCII,
     punctuation that is not an active delimiter) and complete escape sequences"""
-    alpha = plain_alphabet(ec)
-    escs = escape_sequences(ec, v)
-    n = draw(st.integers(1, max_parts))
+    alpha, alpha_sp, escs = _alphabets(eckey(ec), vkey27(v))
+    n = draw(_INT(1, max_parts))
     parts = []
     for _ in range(n):
-        k = draw(st.integers(0, 9))
+        k = draw(_INT(0, 9))
         if k < 6:
-            parts.append(draw(st.text(alphabet=st.sampled_from(alpha), min_size=1, max_size=5)))
+            parts.append(draw(_text(alpha, 1, 5)))
         elif k < 8:
-            parts.append(draw(st.sampled_from(escs)))
+            parts.append(draw(_sampled(escs)))
         else:
-            parts.append(draw(st.text(alphabet=st.sampled_from(alpha + [' ']), min_size=1, max_size=6)))
+            parts.append(draw(_text(alpha_sp, 1, 6)))
     return _strip_edges(''.join(parts))
 
 
@@ -161,6 +191,12 @@ def hl7_datetime(draw, ec=None):
 
 def leaf(v, dt, ec):
     """canonical leaf text for a position of base datatype dt (C01 sense)"""
+    return _leaf(vkey27(v), v if False else ('2.7' if vkey27(v) else '2.5'), dt, eckey(ec))
+
+
+@functools.lru_cache(None)
+def _leaf(new, v, dt, key):
+    ec = dict(key)
     if dt == 'NM':
         return st.one_of(plain_decimal(ec=ec), plain_decimal(ec=ec), non_numeric_text(ec))
     if dt == 'SI':
@@ -176,6 +212,12 @@ def leaf(v, dt, ec):
 
 def valid_leaf(v, dt, ec):
     """leaf text that is valid for dt (C04/C05 'conforming' sense), short enough for every max length"""
+    return _valid_leaf('2.7' if vkey27(v) else '2.5', dt, eckey(ec))
+
+
+@functools.lru_cache(None)
+def _valid_leaf(v, dt, key):
+    ec = dict(key)
     if dt == 'NM':
         return plain_decimal(max_frac=4, ec=ec)
     if dt == 'SI':
@@ -190,7 +232,7 @@ def valid_leaf(v, dt, ec):
         act = active_chars(ec)
         return st.sampled_from([t for t in ['555-1234', '(12)345-6789', '12 (999)555-1234X12', '5551234']
                                 if not (set(t) & act)])
-    alpha = plain_alphabet(ec)
+    alpha = tuple(plain_alphabet(ec))
     return st.text(alphabet=st.sampled_from(alpha), min_size=1, max_size=8).map(lambda s: _strip_edges(s))
 
 
@@ -200,8 +242,9 @@ def valid_leaf(v, dt, ec):
 @st.composite
 def _sparse(draw, n, p_fill=4):
     """sorted non-empty subset of range(n) (indices to fill); the last chosen index is the last non-empty one"""
-    last = draw(st.integers(0, n - 1))
-    chosen = [i for i in range(last) if draw(st.integers(0, 9)) < p_fill]
+    last = draw(_INT(0, n - 1))
+    d10 = _INT(0, 9)
+    chosen = [i for i in range(last) if draw(d10) < p_fill]
     return chosen + [last]
 
 
